@@ -27,31 +27,40 @@ RULES = ["commitments", "shape", "htlcs", "funds", "fee_low", "fee_high", "value
 
 # tier -> (leg A constants, case matrix magnitudes, judge processes)
 TIERS = {
-    "quick": {"KS": 1, "KR": 1, "mags_a": '{"n", "g"}', "mags": "n,g", "judges": 4, "workers": 8,
+    "quick": {"passes": [(1, 1)], "mags_a": '{"n", "g"}', "mags": "n,g", "judges": 4, "workers": 8,
               "gens": 2},
-    "thorough": {"KS": 2, "KR": 1, "mags_a": '{"n", "g", "a"}', "mags": "n,g,a", "judges": 8,
+    "thorough": {"passes": [(2, 1), (1, 2)], "mags_a": '{"n", "g", "a"}', "mags": "n,g,a", "judges": 8,
                  "workers": 8, "gens": 6},
 }
 
 
 def leg_a(tier, d):
     t = TIERS[tier]
-    cfg = vlib.write_cfg(os.path.join(d, "MC_MutualClose.cfg"),
-                         "SPECIFICATION Spec\nCONSTANTS\n  KS = %d\n  KR = %d\n  Mags = %s\n  Saturate = %s\nVIEW View\n"
-                         "INVARIANTS C07\nPROPERTIES ClosedAfterSign\nCHECK_DEADLOCK FALSE\n" % (
-                             t["KS"], t["KR"], t["mags_a"], "TRUE" if SWITCHES["feerateSaturates"] else "FALSE"))
-    r = vlib.tlc("MC_MutualClose", cfg, workers=t["workers"], extra=["-continue", "-coverage", "1"],
-                 timeout=1500, name="mc-mutualclose")
     hyps = {}
-    for m in re.finditer(r'g = <<"signed_must_refuse", (\{[^}]*\}), "([^"]*)">>', r["out"]):
-        rules = "+".join(sorted(re.findall(r'"([^"]+)"', m.group(1))))
-        key = "C07:" + rules + (":" + m.group(2) if m.group(2) else "")
-        hyps[key] = hyps.get(key, 0) + 1
-    acts = vlib.coverage_actions(r["out"])
-    for a in ("Advance", "Close"):
-        if a in acts and acts[a][1] == 0:
-            raise vlib.ToolError("leg A self-test: action %s never taken" % a)
-    return r, hyps
+    tot = {"states": 0, "distinct": 0, "depth": 0, "wall_s": 0.0, "passes": []}
+    for (ks, kr) in t["passes"]:
+        cfg = vlib.write_cfg(os.path.join(d, "MC_MutualClose_%d_%d.cfg" % (ks, kr)),
+                             "SPECIFICATION Spec\nCONSTANTS\n  KS = %d\n  KR = %d\n  Mags = %s\n  Saturate = %s\n"
+                             "VIEW View\nINVARIANTS C07\nPROPERTIES ClosedAfterSign\nCHECK_DEADLOCK FALSE\n" % (
+                                 ks, kr, t["mags_a"], "TRUE" if SWITCHES["feerateSaturates"] else "FALSE"))
+        r = vlib.tlc("MC_MutualClose", cfg, workers=t["workers"], extra=["-continue", "-coverage", "1"],
+                     timeout=2400, name="mc-mutualclose-%d-%d" % (ks, kr))
+        if [v for v in r["violated"] if v != "C07"]:
+            raise vlib.ToolError("leg A: the model violates %s" % r["violated"])
+        for m in re.finditer(r'g = <<"signed_must_refuse", (\{[^}]*\}), "([^"]*)">>', r["out"]):
+            rules = "+".join(sorted(re.findall(r'"([^"]+)"', m.group(1))))
+            key = "C07:" + rules + (":" + m.group(2) if m.group(2) else "")
+            hyps[key] = hyps.get(key, 0) + 1
+        acts = vlib.coverage_actions(r["out"])
+        for a in ("Advance", "Close"):
+            if a in acts and acts[a][1] == 0:
+                raise vlib.ToolError("leg A self-test: action %s never taken" % a)
+        tot["states"] += r["states"]
+        tot["distinct"] += r["distinct"]
+        tot["depth"] = max(tot["depth"], r["depth"])
+        tot["wall_s"] += r["wall_s"]
+        tot["passes"].append({"KS": ks, "KR": kr, "states": r["states"], "distinct": r["distinct"]})
+    return tot, hyps
 
 
 def gen_cases(tier, d, dest):
@@ -86,8 +95,10 @@ def run_harness(binpath, cases, d, threads=8):
     out = os.path.join(d, "log")
     stats = vlib.run_bin(binpath, ["run", "--cases", cases, "--out", out, "--threads", threads], timeout=3000)
     if stats.get("build_failures"):
-        raise vlib.ToolError("harness could not reach %d channel states through the public API: %s" % (
-            len(stats["build_failures"]), json.dumps(stats["build_failures"][:3])))
+        # the real code refused a step of the history the model expects to be accepted (implementation stricter
+        # than the model: a divergence, not an alarm); the cases of that state are not run
+        log("[C07] NOTE: %d channel states were not reached through the public API, e.g. %s" % (
+            len(stats["build_failures"]), json.dumps(stats["build_failures"][0])[:400]))
     lines = []
     for fn in sorted(os.listdir(out)):
         if fn.startswith("log-"):
@@ -175,10 +186,10 @@ def run(pid, tier):
     # ---- leg A: the model (VERIF_C07_SKIP_A=1: mutation self-tests of the binding only - the model does not
     # depend on the code under test)
     if os.environ.get("VERIF_C07_SKIP_A") == "1":
-        a, hyps = {"states": 0, "distinct": 0, "depth": 0, "wall_s": 0.0}, {}
+        a, hyps = {"states": 0, "distinct": 0, "depth": 0, "wall_s": 0.0, "passes": []}, {}
     else:
         a, hyps = leg_a(tier, d)
-    cov["legs"]["A_model"] = {"KS": TIERS[tier]["KS"], "KR": TIERS[tier]["KR"], "mags": TIERS[tier]["mags"],
+    cov["legs"]["A_model"] = {"passes": a.get("passes", []), "mags": TIERS[tier]["mags"],
                               "states": a["states"], "distinct": a["distinct"], "depth": a["depth"],
                               "model_signs_what_reference_refuses": hyps, "wall_s": round(a["wall_s"], 1)}
     if hyps:
@@ -189,8 +200,12 @@ def run(pid, tier):
     g = gen_cases(tier, d, cases_file)
     stats, lines = run_harness(binpath, cases_file, d, threads=8)
     cases = json.load(open(cases_file))
-    if len(lines) != len(cases["cases"]):
-        raise vlib.ToolError("harness executed %d of %d cases" % (len(lines), len(cases["cases"])))
+    unreached = sorted({f["sid"] for f in stats.get("build_failures", [])})
+    expected = sum(1 for c in cases["cases"] if c[0] not in unreached)
+    if len(lines) < expected or len(unreached) * 10 > len(cases["states"]):
+        raise vlib.ToolError("harness executed %d of %d cases, %d of %d states unreached: %s" % (
+            len(lines), len(cases["cases"]), len(unreached), len(cases["states"]),
+            json.dumps(stats.get("build_failures", [])[:3])))
     j = judge(lines, d, TIERS[tier]["judges"])
     missing = [r for r in RULES if j["sole"][r] == 0]
     if missing:
@@ -229,7 +244,8 @@ def run(pid, tier):
                            "replay": {"kind": "mutualclose-case", "state": states_by_sid[e["sid"]],
                                       "case": cases["cases"][e["i"] - 1], "logged": e}})
     cov["legs"]["B_impl"] = {
-        "abstract_states": len(cases["states"]), "cases": j["cases"], "state_builds_through_public_api": stats["state_builds"],
+        "abstract_states": len(cases["states"]), "unreached_states": stats.get("build_failures", [])[:10],
+        "cases": j["cases"], "state_builds_through_public_api": stats["state_builds"],
         "accepted": j["accepted"], "signed_ok": j["signed_ok"], "refused": j["refused"],
         "reference_must_refuse": j["must_refuse"], "impl_stricter": j["impl_stricter"], "panics_recorded": j["panics"],
         "changed_on_refusal": j["changed_on_refusal"], "sole_reason_refusals": j["sole"],
